@@ -1,11 +1,9 @@
-import Cactus.Model.Trace
+import Cactus.Spec.Defs
 /-!
 # Specification of the reachability trace (`cycleRefs`)
 -/
 namespace Cactus
 
-/-- the readable table of `n`, `[]` when it cannot be read -/
-def State.tbl (s : State) (n : Nat) : Table := (s.tableOf n).getD []
 
 /-- recorded adoptions of `k` in table `t`: sum over Forward entries (no distinct-keys assumption) -/
 def fwdCount (t : Table) (k : Nat) : Nat := match t with
